@@ -1219,15 +1219,19 @@ class Model:
                 # if it is an interaction with both categoric and numeric terms
                 if categoric and numeric:
                     numeric_set = set(numeric)
-                    numeric_part = ":".join(numeric)
                     if numeric_set not in numeric_group_sets:
                         numeric_group_sets.append(numeric_set)
                         numeric_groups.append({})
                     idx = numeric_group_sets.index(numeric_set)
                     # Prevent full encoding when numeric part is present outside
-                    # this numeric-categoric interaction
-                    if numeric_part in components:
-                        numeric_groups[idx][numeric_part] = []
+                    # this numeric-categoric interaction (whatever the order of its factors)
+                    for name, kinds in components.items():
+                        names = set(kinds) if isinstance(kinds, dict) else {name}
+                        all_numeric = kinds == "numeric" or (
+                            isinstance(kinds, dict) and all(v_ == "numeric" for v_ in kinds.values())
+                        )
+                        if all_numeric and names == numeric_set:
+                            numeric_groups[idx][name] = []
                     numeric_groups[idx][k] = categoric
 
         # The redundancy analysis assumes lower order terms are visited first, whatever the
